@@ -320,10 +320,7 @@ fn bfs<T: Elem>(ctx: &mut Ctx, label: &str, vals: Vec<T>, max: usize) {
         ctx.states += 1;
         ctx.max_depth = ctx.max_depth.max(depth as u64);
         for op in ops(state.len(), vals.len(), max) {
-            let id = match ctx.take() {
-                Some(id) => id,
-                None => continue,
-            };
+            let (id, rec) = ctx.take_exec();
             ctx.transitions += 1;
             // real: rebuilt from the state by the documented constructor
             let mut backing = state.clone();
@@ -339,7 +336,7 @@ fn bfs<T: Elem>(ctx: &mut Ctx, label: &str, vals: Vec<T>, max: usize) {
             match got {
                 Err(p) => {
                     let class = panic_class(&p);
-                    ctx.record(id, &class, Verdict::fail(&site, &class, format!("expected return {} contents [{}]; {}", rref, ks(&refv), p)), descr);
+                    ctx.record_if(rec, id, &class, Verdict::fail(&site, &class, format!("expected return {} contents [{}]; {}", rref, ks(&refv), p)), descr);
                     continue;
                 }
                 Ok((rreal, creal)) => {
@@ -354,7 +351,7 @@ fn bfs<T: Elem>(ctx: &mut Ctx, label: &str, vals: Vec<T>, max: usize) {
                     if refv.len() != state.len() || ks(&refv) != ks(&state) {
                         ctx.nontrivial_mark(&okey);
                     }
-                    ctx.record(id, &okey, v, descr);
+                    ctx.record_if(rec, id, &okey, v, descr);
                     // successor = what the *reference* says (the real one was just shown equal, or reported)
                     if refv.len() <= max {
                         let k = ks(&refv);
